@@ -41,3 +41,19 @@ package intervalst
 //@   nofail
 //@   ensures[C51] mval(result) >= mval(a) && mval(result) >= mval(b) && mval(result) >= mval(c)
 //@   ensures[C51] result == a || result == b || result == c
+
+// size of a subtree: nil-safe (nodes are references into the read-only heap; 0 = nil)
+//@ ufun nodesize(Int) Int
+//@ ufun nodemax(Int) Int
+//@ heapobj node n=nodesize max=nodemax
+//@ func (*node[T]).size
+//@   props C51
+//@   nofail
+//@   ensures[C51] result == ite(n == nil, 0, nodesize(n))
+
+// Max: the subtree maximum stored in the node; the minimum position for the empty tree (nil-safe)
+//@ func (*node[T]).Max
+//@   props C51
+//@   nofail
+//@   ensures[C51] n == nil ==> kind(result) == intervalst.MinPosition
+//@   ensures[C51] n != nil ==> result == n.max
